@@ -254,7 +254,7 @@ class Module:
 
     def identity_object(self, req, ctx, attr):
         inj = self.take_injection("identity")
-        self.world.log(kind="mr", module=self.kind, service=req.service, cls=1, inst=1, attr=attr,
+        self.world.log(kind="mr", module=self.kind, service=req.service, cls=1, inst=1, attr=attr, mobj=self,
                        data=req.data, transport=ctx.get("transport"), route=ctx.get("route"),
                        slot=self.slot, trailing=ctx.get("trailing"))
         if inj is not None:
@@ -494,7 +494,7 @@ class GenericObject:
         module.world.log(kind="mr", module=module.kind, generic=True, service=req.service, cls=cls,
                          inst=inst, attr=attr, path=req.path, data=req.data,
                          transport=ctx.get("transport"), route=ctx.get("route"), slot=module.slot,
-                         ip=module.ip)
+                         ip=module.ip, mobj=module)
         inj = module.take_injection("generic")
         if inj is not None:
             return build_mr_reply(req.service, inj["status"], b"", inj.get("ext", ()))
